@@ -20,6 +20,8 @@ def run_property(prop, tier, root, only_key=None, write_evidence=True, quiet=Fal
     # an analysis error that escapes a rule module is recorded like one raised inside a rule group: definite findings
     # collected before it are still reported (exit 1 wins over exit 2), and without findings the run is exit 2
     run.group(mod.check, run, db, tier)
+    from .rules.memo import memo_group
+    run.group(memo_group, run, db, prop)
     return report.finish(run, only_key=only_key, write_evidence=write_evidence, quiet=quiet), run
 
 
